@@ -591,3 +591,74 @@ func c11r5(rc *core.RC) {
 		rc.Unknown("decoder/DecodePath-returns", token.NoPos, "found %d return sites of DecodePath methods", n)
 	}
 }
+
+// ---- C11.R6 memory a cached decoder owns is never a destination ----
+
+// A compiled decoder is cached per type and shared by every later call. The memory it points to through its own
+// fields (arrayDecoder.zeroValue: the template zero element copied into the slots a short document leaves out) must
+// stay what it was made as. It may be the *source* of typedmemmove; it is never the destination of a nested
+// Decode / DecodeStream, of typedmemmove, or of a store: one surplus element decoded "into a spare element" would
+// make every later short array start from that element's value.
+func c11r6(rc *core.RC) {
+	p := rc.P
+	of := core.NewOriginFinder(p)
+	n := 0
+	ownedBy := func(os []core.Origin) string {
+		for _, o := range os {
+			if o.Kind == "field" {
+				if i := strings.Index(o.Name, "."); i > 0 && strings.HasSuffix(o.Name[:i], "Decoder") {
+					return o.Name
+				}
+			}
+		}
+		return ""
+	}
+	for _, fn := range p.ModuleFuncs() {
+		if fn.Pkg == nil || fn.Pkg.Pkg.Path() != core.PkgPaths["decoder"] {
+			continue
+		}
+		k := 0
+		for _, b := range fn.Blocks {
+			for _, ins := range b.Instrs {
+				var dst ssa.Value
+				what := ""
+				switch x := ins.(type) {
+				case *ssa.Call:
+					cc := x.Common()
+					if cc.IsInvoke() && (cc.Method.Name() == "Decode" || cc.Method.Name() == "DecodeStream") && len(cc.Args) >= 3 {
+						dst, what = cc.Args[len(cc.Args)-1], "the destination of a nested "+cc.Method.Name()
+					} else if callee := cc.StaticCallee(); callee != nil && callee.Name() == "typedmemmove" && len(cc.Args) == 3 {
+						dst, what = cc.Args[1], "the destination of typedmemmove"
+					}
+				case *ssa.Store:
+					if _, isAlloc := x.Addr.(*ssa.Alloc); !isAlloc {
+						if _, isField := x.Addr.(*ssa.FieldAddr); !isField {
+							dst, what = x.Addr, "the address of a store"
+						}
+					}
+				}
+				if dst == nil {
+					continue
+				}
+				if t := dst.Type(); t.String() != "unsafe.Pointer" {
+					if _, isPtr := t.Underlying().(*types.Pointer); !isPtr {
+						continue
+					}
+				}
+				k++
+				n++
+				owner := ownedBy(of.Origins(dst))
+				if owner == "" {
+					continue // obligations are recorded for the sites that involve decoder-owned memory only, the count is the floor
+				}
+				rc.Touch(core.SSAName(fn))
+				key := fmt.Sprintf("%s/%s never-a-destination", core.SSAName(fn), owner)
+				rc.Bad(key, core.SSAPos(ins), "%s can be the memory the cached decoder keeps in %s: the decoder is shared by every later call of the type, so what is written there shows up in later results (a short array is filled from it)", what, owner)
+			}
+		}
+	}
+	rc.OK("decoder/decoder-owned-memory never-a-destination", token.NoPos, "%d destinations (nested decodes, typedmemmove, stores through pointers) examined: none derives from a field of a cached decoder", n)
+	if n < 100 {
+		rc.Unknown("decoder/destinations", token.NoPos, "found only %d destination sites in the decoder package", n)
+	}
+}
